@@ -40,6 +40,17 @@ def special_cases():
     a = lambda s: bytes([119, len(s)]) + s  # noqa
     pid = lambda i, s, c: bytes([88]) + a(b"n@h") + struct.pack(">III", i, s, c)  # noqa
     i1 = bytes([97, 1])
+    # every validity check of a leaf is made twice, once per family: the fields at, below and above each bound
+    for n, body in ((0, b""), (1, b"\x80"), (2, b"\xab\xc0")):
+        for bits in range(0, 11):
+            bb = bytes([77]) + struct.pack(">I", n) + bytes([bits]) + body
+            out += [bytes([131]) + bb, bytes([131, 104, 2]) + bb + i1, bytes([131, 116, 0, 0, 0, 1]) + i1 + bb, bytes([131, 108, 0, 0, 0, 1]) + bb + bytes([106])]
+    for sign in (0, 1, 2, 255):
+        out += [bytes([131, 110, 1, sign, 5]), bytes([131, 111, 0, 0, 0, 1, sign, 5]), bytes([131, 110, 0, sign])]
+    for arity in (0, 1, 255):
+        out.append(bytes([131, 113]) + a(b"m") + a(b"f") + bytes([97, arity]))
+    out += [bytes([131, 113]) + a(b"m") + a(b"f") + bytes([98, 0, 0, 1, 0]), bytes([131, 113]) + a(b"m") + a(b"f") + bytes([98, 255, 255, 255, 255]),
+            bytes([131, 113]) + a(b"m") + i1 + i1, bytes([131, 119, 2, 0xc3, 0x28]), bytes([131, 118, 0, 2, 0xff, 0xfe]), bytes([131, 119, 0])]
     for tail in (bytes([109, 0, 0, 0, 0]), bytes([104, 0]), bytes([116, 0, 0, 0, 0]), bytes([107, 0, 0]), bytes([106]), bytes([108, 0, 0, 0, 0, 106]), a(b"")):
         out.append(bytes([131, 108, 0, 0, 0, 1]) + i1 + tail)
         out.append(bytes([131, 104, 2, 108, 0, 0, 0, 2]) + i1 + i1 + tail + i1)
